@@ -69,8 +69,67 @@ def sps_def(fi):
   return d[0] if len(d) == 1 else None
 
 
+def note_off_ends_one(ctx, rule):
+  """Location-independent: the renderer keeps, per pitch, the list of onsets that are still open (one pitch may sound several
+  times at once).  A NOTE_OFF closes the oldest one and must leave the others open: taking the pitch's whole list out of the
+  map (pop / del / clear / re-binding to an empty list) without storing the remainder back drops every other open onset of
+  that pitch, so overlapping unisons lose notes on the way back."""
+  fi = ctx.func('performance_lib:BasePerformance._to_sequence')
+  fn = fi.node
+  maps = set()
+  for c in ast.walk(fn):
+    if isinstance(c, ast.Call) and isinstance(c.func, ast.Attribute) and c.func.attr == 'append':
+      r = c.func.value
+      if isinstance(r, ast.Subscript) and isinstance(r.value, ast.Name):
+        maps.add(r.value.id)
+      elif isinstance(r, ast.Call) and isinstance(r.func, ast.Attribute) and r.func.attr == 'setdefault' and isinstance(r.func.value, ast.Name):
+        maps.add(r.func.value.id)
+  cons = 'NOTE_OFF closes one open onset of its pitch and keeps the others'
+  if not maps:
+    why = 'cannot classify: no per-pitch map of open onsets found in _to_sequence'
+    ctx.ob(rule, fi, fn, False, why, construct=cons, unknown=why)
+    return
+  branch = []
+  for st in U.walk_stmts(fn):
+    if any(p and isinstance(t, ast.Compare) and len(t.ops) == 1 and isinstance(t.ops[0], ast.Eq) and 'NOTE_OFF' in norm_text(t) for t, p in U.path_conditions(fn, st)):
+      branch.append(st)
+  whole, one, back = [], [], []
+  for st in branch:
+    for x in ast.walk(st):
+      if isinstance(x, ast.Call) and isinstance(x.func, ast.Attribute) and isinstance(x.func.value, ast.Name) and x.func.value.id in maps and x.func.attr in ('pop', 'clear', 'popitem'):
+        whole.append(x)
+      if isinstance(x, ast.Call) and isinstance(x.func, ast.Attribute) and x.func.attr == 'pop' and x.args and U.const_value(x.args[0]) == 0:
+        recv = U.expand_locals(fn, x.func.value, at=x)
+        if isinstance(recv, ast.Subscript) and isinstance(recv.value, ast.Name) and recv.value.id in maps:
+          one.append(x)
+    if isinstance(st, ast.Delete):
+      for t in st.targets:
+        if isinstance(t, ast.Subscript) and isinstance(t.value, ast.Name) and t.value.id in maps:
+          whole.append(st)
+        if isinstance(t, ast.Subscript) and isinstance(t.value, ast.Subscript) and isinstance(t.value.value, ast.Name) and t.value.value.id in maps and U.const_value(t.slice) == 0:
+          one.append(st)
+    if isinstance(st, ast.Assign) and len(st.targets) == 1 and isinstance(st.targets[0], ast.Subscript) and isinstance(st.targets[0].value, ast.Name) and st.targets[0].value.id in maps:
+      v = U.expand_locals(fn, st.value, at=st)
+      if isinstance(v, (ast.List, ast.Tuple)) and not v.elts:
+        whole.append(st)
+      elif isinstance(v, ast.Subscript) and isinstance(v.slice, ast.Slice) and U.const_value(v.slice.lower) == 1 and v.slice.upper is None:
+        one.append(st)
+        back.append(st)
+      else:
+        back.append(st)
+  if whole and not back:
+    ctx.ob(rule, fi, whole[0], False, '%s takes the pitch\'s whole list of open onsets out of the map and nothing in the NOTE_OFF branch stores the remainder back: when a pitch has been '
+           'started twice before its first NOTE_OFF, the second onset is discarded and its NOTE_OFF finds nothing - the note is lost' % norm_text(whole[0])[:80], construct=cons, definite=True)
+  elif one:
+    ctx.ob(rule, fi, one[0], True, 'the oldest open onset is removed (%s), the others stay in the map' % norm_text(one[0])[:60], construct=cons)
+  else:
+    why = 'cannot classify: how the NOTE_OFF branch removes an onset from %s is not recognised' % sorted(maps)
+    ctx.ob(rule, fi, fn, False, why, construct=cons, unknown=why)
+
+
 def run(ctx):
   from rules import C07, C09
+  note_off_ends_one(ctx, 'RENDER/note-off-ends-one')
   from sa import pitfalls
   scope = []
   for fq in sorted(set([w for _f, _k, w in RENDERERS] + [f for f, _k in EXTRACTORS] + ['performance_lib:BasePerformance._from_quantized_sequence',
